@@ -445,8 +445,17 @@ class Program:
                 if (c.callee or '').endswith('Argument::<\'_>::new_debug'):
                     keys.append(('std::fmt::Debug', 'fmt'))
                 args = ' '.join(c.fn.get('args', [])) + ' ' + ' '.join(c.fn['resolved'].get('args', []))
+                fa = c.fn.get('args', [])
                 for k in keys:
                     for adt, ib in impls.get(k, []):
+                        if k == ('std::convert::From', 'from') and len(fa) >= 2:
+                            # Into::into / From::from with [T, U]: only the impl <U as From<T>>
+                            tref = ib.j.get('impl_trait_ref', '')
+                            T, U = (fa[0], fa[1]) if tr == 'std::convert::Into' else (fa[1] if len(fa) > 1 else '', fa[0])
+                            def norm(s):
+                                return re.sub(r"'\w+", "'_", s)
+                            if norm(tref) != norm('<%s as std::convert::From<%s>>' % (U, T)):
+                                continue
                         if re.search(r'(^|[^\w:])%s\b' % re.escape(adt), args):
                             self.edges[body.id].add(ib.id)
                             self.edge_sites.setdefault((body.id, ib.id), []).append(c)
